@@ -273,6 +273,12 @@ type verifPipe struct {
 	toServer []*Event
 	toClient []*Ack
 	broken   bool
+	// late: the receiving side of this (old) stream gets what is still in the pipe only
+	// after the sending node's next handshake has been answered (the sender noticed the
+	// break first; the receiver still has buffered data of the old connection to process)
+	late     bool
+	lateFrom int
+	nw       *VerifNet
 	conn     *grpc.ClientConn // the (real, never connected) connection object the stream belongs to
 	// CutAfterEvents / CutAfterAcks: break the pipe right after that many more messages
 	// have been delivered in that direction (-1 = never)
@@ -287,6 +293,38 @@ func (p *verifPipe) isBroken() bool {
 		p.broken = true
 	}
 	return p.broken
+}
+
+// HoldReceiver stops b from reading the current a>b stream (data stays in the pipe).
+func (nw *VerifNet) HoldReceiver(a, b string) bool {
+	p := nw.pipes[a+">"+b]
+	if p == nil || p.isBroken() {
+		return false
+	}
+	p.late, p.lateFrom = true, 1<<30
+	return true
+}
+
+// CutLate breaks the held a>b stream for the sender now; the receiver reads what is left in
+// the pipe once a's next handshake has been answered.
+func (nw *VerifNet) CutLate(a, b string) bool {
+	p := nw.pipes[a+">"+b]
+	if p == nil || !p.late {
+		return false
+	}
+	p.lateFrom = nw.Hellos
+	p.broken = true
+	return true
+}
+
+// CutLosing breaks the held a>b stream and loses what was still in the pipe.
+func (nw *VerifNet) CutLosing(a, b string) bool {
+	p := nw.pipes[a+">"+b]
+	if p == nil || !p.late {
+		return false
+	}
+	p.toServer, p.late, p.broken = nil, false, true
+	return true
 }
 
 // Cut breaks the current stream from a to b (both directions of that stream).
@@ -380,7 +418,7 @@ func (c *verifFedClient) EventStream(ctx context.Context, _ ...grpc.CallOption) 
 	if old := c.nw.pipes[key]; old != nil {
 		old.broken = true
 	}
-	p := &verifPipe{key: key, cutAfterEvents: -1, cutAfterAcks: -1, conn: c.conn}
+	p := &verifPipe{key: key, cutAfterEvents: -1, cutAfterAcks: -1, conn: c.conn, nw: c.nw}
 	c.nw.pipes[key] = p
 	c.nw.Dials++
 	ss := &verifServerStream{p: p, ctx: verifIncoming(ctx)}
@@ -419,7 +457,12 @@ func (s *verifClientStream) CloseSend() error { s.p.broken = true; return nil }
 func (s *verifServerStream) Context() context.Context { return s.ctx }
 
 func (s *verifServerStream) Recv() (*Event, error) {
-	vsched.WaitUntil("fed.server.Recv", func() bool { return len(s.p.toServer) > 0 || s.p.isBroken() })
+	vsched.WaitUntil("fed.server.Recv", func() bool {
+		if s.p.late && s.p.nw != nil && s.p.nw.Hellos <= s.p.lateFrom {
+			return false
+		}
+		return len(s.p.toServer) > 0 || s.p.isBroken()
+	})
 	if len(s.p.toServer) == 0 {
 		return nil, errVerifCut
 	}
@@ -434,6 +477,10 @@ func (s *verifServerStream) Recv() (*Event, error) {
 
 func (s *verifServerStream) Send(a *Ack) error {
 	vsched.Point("fed.server.Send")
+	if s.p.late {
+		// the receiver has not noticed the break of the old connection yet: its acks go nowhere
+		return nil
+	}
 	if s.p.isBroken() {
 		return errVerifCut
 	}
